@@ -26,6 +26,7 @@ import (
 	"github.com/sourcenetwork/defradb/internal/core"
 	"github.com/sourcenetwork/defradb/internal/datastore"
 	"github.com/sourcenetwork/defradb/internal/encryption"
+	"github.com/sourcenetwork/defradb/internal/keys"
 )
 
 func putBlock(
@@ -140,6 +141,19 @@ func determineBlockEncryption(
 			}
 			return encBlock, link, nil
 		}
+	}
+
+	if fieldName.HasValue() && len(heads) == 0 {
+		// A field that is written for the first time by an update has no previous block to take the
+		// encryption from. A document that is encrypted as a whole says so on its composite commits.
+		docHeads, _, err := NewHeadSet(
+			txn.Headstore(),
+			keys.HeadstoreDocKey{DocID: docID, FieldID: core.COMPOSITE_NAMESPACE},
+		).List(ctx)
+		if err != nil {
+			return nil, cidlink.Link{}, NewErrGettingHeads(err)
+		}
+		heads = docHeads
 	}
 
 	// otherwise we use the same encryption as the previous block
